@@ -361,7 +361,8 @@ def main(argv):
         c = speclang.CONTRACTS[r["contract"]]
         bounded.append(dict(function=r["contract"], label="bounded - not proved", cases=r["cases"], passed=r["ok"],
                             skipped_by_precondition=r["skipped"], violations=len(r.get("violations", [])),
-                            assumed_contract=bool(c.assumed), error=r.get("error"), truncated=r.get("truncated", False)))
+                            assumed_contract=bool(c.assumed), error=r.get("error"), truncated=r.get("truncated", False),
+                            revisited_after_the_run=r.get("revisited", 0)))
         evals += r["cases"]
         distinct += r.get("distinct", 0)
         samples += r.get("samples", [])[:1]
